@@ -18,7 +18,7 @@ func init() {
 		Name:  "EXEC",
 		Doc:   "who may run user code; the planning run is zeroed; run-once memoization",
 		Run:   runExec,
-		Floor: map[string]int{"EXEC-X1": 5, "EXEC-X2": 4, "EXEC-X3": 1, "EXEC-X4": 1, "EXEC-X5": 2, "ONCE-O1": 2, "ONCE-O2": 2, "ONCE-O4": 3},
+		Floor: map[string]int{"EXEC-X1": 5, "EXEC-X2": 4, "EXEC-X3": 1, "EXEC-X4": 1, "EXEC-X5": 2, "EXEC-X6": 1, "ONCE-O1": 2, "ONCE-O2": 2, "ONCE-O4": 3},
 	})
 }
 
@@ -282,6 +282,78 @@ func runExec(c *Ctx) {
 		})
 	}
 
+	// ---- X6: what the executor writes through its receiver are direct fields of the receiver struct, so that on
+	// the planner's by-value copy of a Func these writes cannot reach the original function
+	{
+		nw := 0
+		badW := ""
+		for _, w := range enumerateWrites(exec) {
+			if _, isLocal := w.target.(*ssa.Alloc); isLocal {
+				continue
+			}
+			_, _, root := ownerOf(w)
+			if root != "parameter" {
+				continue
+			}
+			// does the written address hang off the receiver?
+			v := w.target
+			direct := false
+			viaLoad := false
+			for i := 0; i < 20; i++ {
+				switch x := v.(type) {
+				case *ssa.FieldAddr:
+					if x.X == ssa.Value(exec.Params[0]) {
+						direct = !viaLoad
+						i = 20
+					}
+					v = x.X
+				case *ssa.IndexAddr:
+					v = x.X
+				case *ssa.UnOp:
+					viaLoad = true
+					v = x.X
+				default:
+					i = 20
+				}
+			}
+			if core.Root(w.target) != ssa.Value(exec.Params[0]) && !rootIsParam(w.target, exec.Params[0]) {
+				continue
+			}
+			nw++
+			if !direct {
+				badW = fmt.Sprintf("%s at %s writes through a pointer/slice/map held by the receiver", w.kind, p.InstrPos(w.in))
+			}
+		}
+		// one level down: a callee that receives a pointer held by the receiver must not write through it
+		for _, ci := range core.Calls(exec) {
+			cal := ci.Common().StaticCallee()
+			if cal == nil || !p.InTarget(cal) || cal.Blocks == nil {
+				continue
+			}
+			for ai, a := range ci.Common().Args {
+				fr, ok := core.AsFieldLoad(a)
+				if !ok || core.Strip(fr.Base) != ssa.Value(exec.Params[0]) {
+					continue
+				}
+				if _, isPtr := a.Type().Underlying().(*types.Pointer); !isPtr || ai >= len(cal.Params) {
+					continue
+				}
+				for _, w := range enumerateWrites(cal) {
+					if _, isLocal := w.target.(*ssa.Alloc); isLocal {
+						continue
+					}
+					if rootIsParam(w.target, cal.Params[ai]) && !p.FreshIn(w.target) {
+						nw++
+						badW = fmt.Sprintf("%s writes through Func.%s (a pointer the by-value copy shares with the original) at %s", core.FuncName(cal), fr.Field, p.InstrPos(w.in))
+					}
+				}
+			}
+		}
+		c.R.Add("EXEC-X6", "executor|receiver-writes-are-direct-fields", "executor", p.Pos(exec.Pos()), badW == "",
+			"whatever the executor stores on its receiver goes into a direct field of the Func struct (the planner runs it on a by-value copy, so the original is untouched)",
+			ternary(badW == "", fmt.Sprintf("%d receiver write(s), all direct fields", nw), badW))
+	}
+
 	// ---- X5: resolver flag plumbing
 	flagOf := func(ci ssa.CallInstruction) string {
 		for _, a := range ci.Common().Args {
@@ -510,4 +582,24 @@ func posOf(p *core.Prog, f *ssa.Function) string {
 		return "-"
 	}
 	return p.Pos(f.Pos())
+}
+
+func rootIsParam(v ssa.Value, prm *ssa.Parameter) bool {
+	for i := 0; i < 30; i++ {
+		switch x := v.(type) {
+		case *ssa.FieldAddr:
+			v = x.X
+		case *ssa.IndexAddr:
+			v = x.X
+		case *ssa.UnOp:
+			v = x.X
+		case *ssa.Lookup:
+			v = x.X
+		case *ssa.Slice:
+			v = x.X
+		default:
+			return v == ssa.Value(prm)
+		}
+	}
+	return false
 }
